@@ -208,6 +208,8 @@ def extract_module(name: str, tree: ast.Module, src: str) -> Module:
                 for st in node.body:
                     if isinstance(st, ast.AnnAssign) and isinstance(st.target, ast.Name):
                         n = st.target.id
+                        if n.startswith("_"):
+                            continue  # pydantic: an annotated name with a leading underscore is a private attribute, not a field
                         fi = ci.fields.get(n) or FieldInfo(n, st.annotation)
                         fi.ann = st.annotation
                         if st.value is not None:
